@@ -1217,6 +1217,45 @@ theorem step_uOp_agree (desc : FieldDesc) {s : St α} (hs : StoreOKU V s) (op : 
           · exact ⟨rfl, hs⟩
           · exact putU h hs dst (r := { home := ring, val := g }) rfl (hv g hn) _
 
+omit h in
+/-- element-level and univariate operations whose constructors do not decode raw wire data
+    (`eCtor … "enc"`, `uCtor … "coefs"`), `uCtor … "str"` excepted -/
+def elemOrUOp (op : Op) : Bool := elemOpAll op || uOp op
+
+theorem step_elemOrU_agree (desc : FieldDesc) {s : St α} (hs : StoreOKU V s) (op : Op)
+    (hop : elemOrUOp op = true) :
+    step env' desc s op = step env desc s op ∧ StoreOKU V (step env desc s op).1 := by
+  unfold elemOrUOp at hop
+  rw [Bool.or_eq_true] at hop
+  rcases hop with hop | hop
+  · exact step_elemAll_agree h desc hs op hop
+  · exact step_uOp_agree h desc hs op hop
+
+theorem runOps_elemOrU_agree (desc : FieldDesc) (ops : List Op)
+    (hops : ∀ op ∈ ops, elemOrUOp op = true) :
+    ∀ {s : St α}, StoreOKU V s →
+      runOps env' desc s ops = runOps env desc s ops ∧ StoreOKU V (runOps env desc s ops).1 := by
+  induction ops with
+  | nil => intro s hs; exact ⟨rfl, hs⟩
+  | cons op t ih =>
+    intro s hs
+    obtain ⟨e, hs'⟩ := step_elemOrU_agree h desc hs op (hops op List.mem_cons_self)
+    obtain ⟨e2, hs2⟩ := ih (fun o ho => hops o (List.mem_cons_of_mem _ ho)) hs'
+    simp only [runOps]
+    rw [e, e2]
+    exact ⟨rfl, hs2⟩
+
 end StepU
+
+/-! ## prime fields: the constructors from external data produce reduced words -/
+
+theorem prime_parse_lt {p : Nat} (hp : 0 < p) (h32 : p - 1 < 2 ^ 32) {str : String} {v : Nat}
+    (hv : Prime.parse p str = .ok v) : v < p := by
+  unfold Prime.parse at hv
+  dsimp only at hv
+  split_ifs at hv <;> injection hv with hv <;> subst hv
+  · exact Prime.fromSigned_lt hp h32 _
+  · exact Prime.element_lt hp
+
 end Tables
 end Algobra
